@@ -77,8 +77,19 @@ impl BetTable {
         reader.seek(SeekFrom::Start(offset))?;
 
         // Read the compressed/encrypted data
-        let mut data = vec![0u8; compressed_size as usize];
-        reader.read_exact(&mut data)?;
+        // `compressed_size` comes from the archive header and is untrusted: read at most that
+        // many bytes and let the buffer grow with what the file really holds.
+        let mut data = Vec::new();
+        reader
+            .by_ref()
+            .take(compressed_size)
+            .read_to_end(&mut data)?;
+        if data.len() as u64 != compressed_size {
+            return Err(Error::invalid_format(format!(
+                "BET table claims {compressed_size} bytes but only {} are present",
+                data.len()
+            )));
+        }
 
         // Check if we have at least the extended header (12 bytes)
         if data.len() < 12 {
@@ -181,6 +192,19 @@ impl BetTable {
         // Parse the rest of the table - data starts after extended header + BET header
         let data_start = 12 + std::mem::size_of::<BetHeader>();
         let mut cursor = std::io::Cursor::new(&table_data[data_start..]);
+
+        // The three arrays are read from the rest of the table; the lengths the (untrusted) header
+        // announces for them must fit there before anything is reserved
+        let body_len = (table_data.len() - data_start) as u64;
+        let flags_bytes = header.flag_count as u64 * 4;
+        let file_table_bytes =
+            (header.file_count as u64 * header.table_entry_size as u64).div_ceil(8);
+        let hash_bytes = (header.bet_hash_array_size / 8) as u64 * 8;
+        if flags_bytes + file_table_bytes + hash_bytes > body_len {
+            return Err(Error::invalid_format(format!(
+                "BET header announces {flags_bytes} + {file_table_bytes} + {hash_bytes} bytes of arrays but only {body_len} bytes follow"
+            )));
+        }
 
         // Read file flags
         let mut file_flags = Vec::with_capacity(header.flag_count as usize);
